@@ -224,6 +224,9 @@ def run(ctx):
                 shard_depth=4, distinct_by_construction=True)
     ctx.explore("ext-V6-f64", matrix_tree(["f64"], G3, shp, V5 + [1.5e308]), body_factory("ext"),
                 shard_depth=4, distinct_by_construction=True)
+    # three varying columns with infinities: ties (inf == inf, inf - inf) in the SFS sums
+    ctx.explore("ext-inf-n3d3", matrix_tree(["f32"], ["min", "max"], [(3, 3)], [0, 1, INF]),
+                body_factory("ext"), shard_depth=4, distinct_by_construction=True)
     if not q:
         ctx.explore("ext-V4-n3d3", matrix_tree(["f32", "f64"], G3, [(3, 3)], [0, 1, INF, 1e30]),
                     body_factory("ext"), shard_depth=4, distinct_by_construction=True)
